@@ -245,6 +245,32 @@ endmodule
   assign z = 1'b0;
 endmodule
 """, [], "t"
+    yield "outputs-named-tie0-and-tie1", """module t (a, b, tie0, tie1, y);
+  input a, b;
+  output tie0, tie1, y;
+  wire w;
+  nand n0 (tie0, a, b);
+  or o0 (w, a, 1'b0);
+  xor x0 (tie1, w, 1'b1);
+  and a0 (y, w, b);
+endmodule
+""", [], "t"
+    yield "implicit-wire-named-tie1", """module t (a, b, y, z);
+  input a, b;
+  output y, z;
+  nor n0 (tie1, a, b);
+  and a0 (y, tie1, 1'b1);
+  or o0 (z, tie1, 1'b0, a);
+endmodule
+""", [], "t"
+    yield "instance-named-tie0", """module t (a, y);
+  input a;
+  output y;
+  wire w;
+  not tie0 (w, a);
+  and tie1 (y, w, 1'b1);
+endmodule
+""", [], "t"
     yield "net-named-tie1-input", """module t (tie1, a, y);
   input tie1, a;
   output y;
